@@ -282,6 +282,11 @@ class Gen:
                     return sel
                 left = pick(assoc['leftAsset'], assoc['leftMultiplicity']['max'])
                 right = pick(assoc['rightAsset'], assoc['rightMultiplicity']['max'])
+                if (not left or not right) and any(self.links[l] == (cls, list(left), list(right)) for l in self.live_l):
+                    # two value-equal associations can only coexist when one side is empty (no pair to collide on);
+                    # pjs compares by value, so `remove_association` then takes the first equal one: the two objects
+                    # are interchangeable for the toolbox, not for the object-identity bookkeeping of this harness
+                    left = left or [r.choice(self.live_a)]; right = right or [r.choice(self.live_a)]
                 self.ops.append({'k': 'add_association', 'cls': cls, 'lf': assoc['leftField'], 'rf': assoc['rightField'], 'left': left, 'right': right})
                 if self.predict_assoc_ok(assoc, cls, left, right):
                     l = self.nl; self.nl += 1
@@ -337,9 +342,14 @@ class Gen:
         return [a for a in self.dead_a if self.ids[a] not in live_ids]
     def usable_dead_links(self):
         live_ids = {self.ids[a] for a in self.live_a}
+        def byval(l):
+            cls, L, R = self.links[l]; return (cls, [self.ids[a] for a in L], [self.ids[a] for a in R])
+        live_vals = [byval(l) for l in self.live_l]
         def ghost(l):
             cls, L, R = self.links[l]
-            return any(self.ids[a] not in live_ids for a in L + R) or not (L and R)
+            # (a removed association that looks like a live one - possible when one side is empty - is not an invalid
+            #  handle for the toolbox: pjs compares by value)
+            return byval(l) not in live_vals and (any(self.ids[a] not in live_ids for a in L + R) or not (L and R))
         return [l for l in self.dead_l if ghost(l)]
     def live_names(self):
         return {self.names_of[a] for a in self.live_a}
